@@ -23,7 +23,10 @@ PG = fx.P_GRIDS[3]
 CIA_T = [100.0, 1000.0, 3500.0]
 CONTRIBS = ['abs', 'cia', 'ray', 'clouds', 'flat', 'lee', 'hm']
 MOLS = ['H2O', 'CH4', 'CO2']
-MAGS = {'thin': (1e-31, None), 'tau1': (1e-27, None), 'mixed': (1.0, [1e-33, 1e-27, 1e-24, 1e-18])}
+MAGS = {'thin': (1e-31, None), 'tau1': (1e-27, None), 'mixed': (1.0, [1e-33, 1e-27, 1e-24, 1e-18]),
+        # opaque at both ends of the wavenumber grid, a window in between (the cut-off between sources looks at every
+        # wavenumber; a test of the two ends only would skip the later sources inside the window)
+        'ends': (1.0, [1e-21, 1e-27, 1e-28, 1e-21])}
 
 
 def orders(maxsize):
@@ -521,6 +524,7 @@ def explore(ctx):
             core.product_cases(small, core=['order', 'hist', 'mag', 'species'], d=3)
     base = dict((k, v[0]) for k, v in DIMS.items() if k != 'order')
     cases += [dict(base, order=o, opmode='ktables', hist=h) for o in dims['order'] for h in ('mcf', 'late-cfm')]
+    cases += [dict(base, order=o, mag='ends', hist=h) for o in dims['order'] for h in ('mcf', 'cfm')]
     cases += [dict(base, order=o, chem='file-partial', hist=h, abund=ab) for o in orders(2) for h in ('mcf', 'fcm')
               for ab in (DIMS['abund'][0], DIMS['abund'][1])]
     seen, out = set(), []
